@@ -245,6 +245,12 @@ ILL = {
                                               ["phi", "degrees", 0, [-360, 360], "orientation", ""]],
     "unknown parameter type": lambda P: _mod(P, 0, lambda p: p.__setitem__(4, "bogus")),
     "vector control non-integer": lambda P: P + [["m_ctl", "", 1.5, [0.5, 2.5], "", ""], ["vec[m_ctl]", "Ang", 1, [0, 10], "volume", ""]],
+    # names that collide only after the table has been expanded into the names a caller can set
+    "vector element duplicates a scalar": lambda P: P + [["qvv[3]", "Ang", 1, [0, 10], "volume", ""], ["qvv2", "Ang", 1, [0, 10], "volume", ""]],
+    "table declares scale": lambda P: P + [["scale", "", 1, [0, 10], "", ""]],
+    "table declares background": lambda P: P + [["background", "1/cm", 0.5, [0, 10], "", ""]],
+    "name of a generated magnetic parameter": lambda P: P + [["xsld", "1e-6/Ang^2", 1, [-10, 10], "sld", ""],
+                                                              ["xsld_M0", "", 0, [-10, 10], "", ""]],
 }
 
 
